@@ -6,7 +6,7 @@
    the read list rs; [multi_ops_ok] / [multi_free] = side conditions on the catalogued multi-substitutions. *)
 From Coq Require Import String.
 From Coq Require Import Permutation.
-From Aldy Require Import Base Consts Pileup PileupProofs PileupMnpTableProofs Consts_here Consts_wf Exprs_region Tied_region.
+From Aldy Require Import Base Consts Pileup PileupProofs PileupMnpTableProofs Consts_here Consts_wf Exprs_region Tied_region InRegionProofs.
 Import List.
 Open Scope Z_scope.
 
@@ -291,3 +291,32 @@ Theorem C06_tie_window : forall g ab t p, g_mapped g = ab :: t ->
 Proof. exact window_inside_tied. Qed.
 Goal True. idtac "ASSUME C06_tie_window". Abort.
 Print Assumptions C06_tie_window.
+
+(* ================================================================= sam._in_region in full (sam.py:1023-1033)
+   The pileup model takes "the record lies on another contig" and "the record has no end" as flags of the read; this is the
+   test that sets them: mapped to the contig named EXACTLY prefix + region.chr, an end is reported, the closed intervals meet. *)
+Theorem C06_in_region_named_iff : forall prefix chr name unmapped st en b0 b1,
+  in_region_named prefix chr name unmapped st en b0 b1 = true <->
+  unmapped = false /\ name = prefix ++ chr /\ exists e, en = Some e /\ ((st <= b0 <= e) \/ (b0 <= st <= b1)).
+Proof. exact in_region_named_iff. Qed.
+Goal True. idtac "ASSUME C06_in_region_named_iff". Abort.
+Print Assumptions C06_in_region_named_iff.
+
+Theorem C06_longer_contig_names_rejected : forall prefix chr x y unmapped st en b0 b1, (x <> nil \/ y <> nil) ->
+  in_region_named prefix chr (x ++ (prefix ++ chr) ++ y) unmapped st en b0 b1 = false.
+Proof. exact longer_names_rejected. Qed.
+Goal True. idtac "ASSUME C06_longer_contig_names_rejected". Abort.
+Print Assumptions C06_longer_contig_names_rejected.
+
+Theorem C06_pileup_in_region_is_named : forall g r prefix chr name,
+  r_offtarget r = negb (str_eqb name (prefix ++ chr)) ->
+  in_region g r = in_region_named prefix chr name false (r_start r) (if r_funmap r then None else Some (ref_end r))
+                                  (fst (g_wide g)) (snd (g_wide g)).
+Proof. exact pileup_in_region_is_named. Qed.
+Goal True. idtac "ASSUME C06_pileup_in_region_is_named". Abort.
+Print Assumptions C06_pileup_in_region_is_named.
+
+Theorem C06_tie_meets : forall a0 a1 b0 b1, meets a0 a1 b0 b1 = region_overlap (inZ a0) (inZ a1) (inZ b0) (inZ b1).
+Proof. exact meets_tied. Qed.
+Goal True. idtac "ASSUME C06_tie_meets". Abort.
+Print Assumptions C06_tie_meets.
